@@ -137,9 +137,9 @@ def r2(facts, res):
     eng = Engine2(facts, res['field_ranges'], e2prog.MIN_SIZES, {})
     shifts = []
     def hook(eng, e, st):
-        for x in walk(e):
+        for x, sx in eng.subexprs(e, st):
             if x.get('k') == 'BinaryOperator' and x['op'] in ('<<', '>>') and const_of(x['r']) is None:
-                amt = eng.ev(x['r'], st)
+                amt = eng.ev(x['r'], sx)
                 w = (x.get('t') or {}).get('w', 32)
                 shifts.append((x, amt, w))
     eng.value_hooks.append(hook)
